@@ -53,8 +53,8 @@ type sharedState struct {
 	p        *Program
 	fns      map[*ssa.Function]bool
 	shared   map[ssa.Value]bool
-	fields   map[string]bool // "<Type>#<idx>" holds a shared reference
-	carries  map[ssa.Value]bool    // struct values copied out of shared memory (their reference fields still point into it)
+	fields   map[string]bool        // "<Type>#<idx>" holds a shared reference
+	carries  map[ssa.Value]bool     // struct values copied out of shared memory (their reference fields still point into it)
 	objs     map[ssa.Value]*objFact // private objects (by pointer value) into which such a struct value was copied
 	why      map[ssa.Value]string
 	changed  bool
